@@ -410,6 +410,44 @@ def free_running(res, seconds):
     shutil.rmtree(work, True)
 
 
+def later_session(res, sp):
+    """a complete recording, a reader opened on it, then a later session of the same channel that first writes
+    the same samples again (every such write is refused, the writer stays usable) and then a free later period;
+    after its close the reader opened before and a fresh one see every sample of both sessions"""
+    import digital_rf
+    work = common.scratch_dir("c09later-")
+    top = os.path.join(work, "top")
+    P.run_writer(sp, top)
+    lastg = max(g0 + n for g0, n in sp["writes"])
+    per_file = max(1, sp["file_cadence_ms"] * sp["srn"] // (1000 * sp["srd"]))
+    sp3 = dict(sp, writes=[list(w) for w in sp["writes"]] + [[lastg + 3 * per_file + 7, min(per_file + 3, 4000)]],
+               name=sp["name"] + "-later-session")
+    sp3.pop("apis", None)
+    inp = {"recording": sp["name"], "spec": sp3, "label": "later-session-refused-then-later-period"}
+    try:
+        old, seen0 = P.reader_pass(top, sp)
+    except Exception as e:  # noqa
+        res.violation("reader-fails-after-close", "a reader fails on a complete recording", inp, "all samples", repr(e)[:200])
+        return
+    outc, rc, err = P.run_writer(sp3, top)
+    oc = {o["call"]: o for o in outc}
+    res.count("later_session_checked")
+    if not oc.get("write%d" % (len(sp3["writes"]) - 1), {}).get("ok") or not oc.get("close", {}).get("ok"):
+        res.disagree("later session: the write into a free later period (or the close) did not succeed", inp, "ok", outc[-4:])
+        return
+    for name, rd in (("long-lived", old), ("fresh", None)):
+        try:
+            _r, seen = P.reader_pass(top, sp3, reader=rd)
+        except Exception as e:  # noqa
+            res.violation("reader-fails-after-close", "a %s reader fails after the later session was closed" % name, inp,
+                          "all samples", repr(e)[:200])
+            continue
+        if not (seen == P.written(sp3)):
+            res.violation("not-all-visible-after-close", "after the writer of a later session is closed a %s reader does not see "
+                          "everything" % name, inp, P.written(sp3).brief(), seen.brief())
+    shutil.rmtree(work, True)
+
+
 def run(res):
     common.use_impl()
     res.rule = ("one case = one point between two file-system operations of a single-stepped real writer, at which a "
@@ -436,6 +474,7 @@ def run(res):
         for i, tmp_rel in P.restart_points(res, b, 2):
             for later in (False, True):
                 P.restart_after_kill(res, sp, i, tmp_rel, later, concurrent=True)
+        later_session(res, sp)
         res.sample({"recording": sp["name"], "ops": b.n,
                     "props_variant": {0: "Direct", 1: "Staged", None: "none"}[b.vp]})
         shutil.rmtree(b.work, True)
@@ -475,6 +514,25 @@ def replay(res, rp):
         return 0
     if sp and inp.get("label") == "restart-after-kill":
         return P.replay_restart(res, rp)
+    if sp and inp.get("label") == "later-session-refused-then-later-period":
+        work = common.scratch_dir("c09replay-")
+        top = os.path.join(work, "top")
+        P.run_writer(dict(sp, writes=sp["writes"][:-1]), top)
+        old, _s = P.reader_pass(top, sp)
+        outc, rc, err = P.run_writer(sp, top)
+        print("later session outcomes:", [(o["call"], o["ok"]) for o in outc])
+        print("tmp. files after its close:", [f for f in P.tree_files(top) if os.path.basename(f).startswith("tmp.")])
+        bad = 0
+        for name, rd in (("long-lived", old), ("fresh", None)):
+            try:
+                _r, seen = P.reader_pass(top, sp, reader=rd)
+                print(name, "reader sees", seen.brief(), "; written", P.written(sp).brief())
+                bad += 0 if seen == P.written(sp) else 1
+            except Exception as e:  # noqa
+                print(name, "reader raises", repr(e))
+                bad += 1
+        print("replay verdict:", "STILL VIOLATING" if bad else "no longer violating")
+        return 1 if bad else 0
     if sp and inp.get("label") == "two-dirs":
         import digital_rf
         work = common.scratch_dir("c09replay-")
